@@ -31,11 +31,15 @@
 extern "C" {
 #endif
 
+#include <sys/epoll.h>
+
 #include "eventloop.h"
 
 struct eventloop_epoll {
 	int epoll_fd;
 	struct io_event *current_ev;
+	struct epoll_event *pending_events;
+	int num_pending_events;
 	struct eventloop loop;
 };
 
